@@ -339,6 +339,13 @@ def implicit_contract(env, factory, setup_model=None, pre=None, requires=None):
         x = h.solve_nonlinear(ins)
         nsolve = len(spshim.SOLVES)
         env.holds("C02", "S-nl solve_nonlinear performs exactly one factorised solve", nsolve == 1, "%d solves" % nsolve)
+        if nsolve == 1 and len(h.out_names) == 1:
+            # the reported state is the unknown of the factorised solve, untouched (any rounding, clipping or masking of the
+            # solution - however small the entries - would break linearity in the right-hand side)
+            n0 = h.out_names[0]
+            env.eq("C02,C05,C10", "S-nl the reported state is exactly the solution of the factorised solve [%s]" % n0,
+                   np.asarray(x[n0], dtype=object).reshape(-1), np.asarray(spshim.SOLVES[0]["x"], dtype=object).reshape(-1))
+            x = {n0: np.asarray(spshim.SOLVES[0]["x"], dtype=object).reshape(h.shape[n0]).view(S.SymArray)}
         r = h.residual(ins, x)
         if nsolve == 1:
             rec = spshim.SOLVES[0]
@@ -409,6 +416,18 @@ def implicit_contract(env, factory, setup_model=None, pre=None, requires=None):
         for n in h.out_names:
             env.eq("C02", "S-nl residual at the solve_nonlinear result is the solved system (R(x) == A x - b) [%s]" % n,
                    np.asarray(r[n]).reshape(-1), 0 * np.asarray(r[n]).reshape(-1))
+        # native counterpart of "the reported state is exactly the solution": the residual also vanishes when the solution
+        # is tiny (right-hand side scaled by 1e-9: inputs whose name says rhs / forces)
+        tiny = dict(ins)
+        scaled = [k for k in h.in_names if k in ("rhs", "forces")]
+        for k in scaled:
+            tiny[k] = np.asarray(ins[k], dtype=float) * 1e-9
+        if scaled:
+            xt = h.solve_nonlinear(tiny)
+            rt = h.residual(tiny, xt)
+            for n in h.out_names:
+                env.eq("C02,C05,C10", "S-nl the reported state is exactly the solution of the factorised solve [%s]" % n,
+                       np.asarray(rt[n]).reshape(-1) * 1e9, 0 * np.asarray(rt[n]).reshape(-1))
         hS = env.comp("live.solve", factory, setup_model)
         insQ = hS.inputs(tag="P.")
         if requires is not None:
